@@ -199,7 +199,7 @@ NOT_APPLICABLE = {
 
 # thorough tiers that were run end-to-end on the unchanged tree and exited 0 (DESIGN.md 8.4); the others exist in the code
 # (engine/run.sh check <id> --tier thorough) but are not registered until they have been sized and verified
-THOROUGH_OK = {"C01", "C02", "C04", "C12", "C17", "C20"}
+THOROUGH_OK = {"C01", "C02", "C04", "C09", "C12", "C17", "C20"}
 
 PENDING_REASON = "check not built yet in this session (solver-based harness planned in DESIGN.md); not claimed until it runs"
 
